@@ -364,10 +364,13 @@ def csscombine(
 
     oldser = cssutils.ser
     cssutils.setSerializer(cssutils.serialize.CSSSerializer())
-    if minify:
-        cssutils.ser.prefs.useMinified()
-    cssutils.ser.prefs.resolveVariables = resolveVariables
-    cssText = result.cssText
-    cssutils.setSerializer(oldser)
+    try:
+        if minify:
+            cssutils.ser.prefs.useMinified()
+        cssutils.ser.prefs.resolveVariables = resolveVariables
+        cssText = result.cssText
+    finally:
+        # the caller's serializer is put back on every exit
+        cssutils.setSerializer(oldser)
 
     return cssText
